@@ -1,11 +1,12 @@
 (* FaultDisciplineFacts.v -- C07 on fault paths: the fs-layer model under one
-   injected syscall failure ([fs_step_f], Discipline.v) against the extended
-   discipline [xdiscipline] over traces with failed syscalls and call results.
+   injected syscall failure ([fs_step_f], Discipline.v; fs/file.go as of b0161d2,
+   metadb.go as of 862e6cb) against the extended discipline [xdiscipline] over
+   traces with failed syscalls and call results.
    For ALL op sequences (valid or not) and ALL fault positions:
-     fault_core_ok            deletion / creation / file-fsync / meta-complete clauses
-     fault_full_ok_or_dir_failed   the directory clauses too, unless a Sync / Load
-                              failed in its directory part earlier in the run
-   and the two refutations (what fs/file.go and metadb.go really do). *)
+     fault_full_ok     every clause, the two directory clauses included
+     fault_core_ok     (corollary) the clauses without them
+   and what acceptance means on the trace itself, for any trace:
+     delete_ok_sound, create_ok_sound, sync_ok_sound, meta_ok_sound. *)
 From Coq Require Import ZifyN ZifyNat ZifyBool.
 From RW Require Import Base.Bytes Fs.Discipline Fs.DisciplineFacts.
 Open Scope N_scope.
@@ -53,8 +54,7 @@ Qed.
 Record Inv (full : bool) (st : fstate) (c : xst) : Prop := {
   i_meta : s_meta st = true -> x_me c = true;
   i_hex : forall s, h_get s (s_h st) <> None -> In s (s_ex st);
-  i_pend : full = true -> forall s, In s (x_pend c) -> h_get s (s_h st) <> Some true;
-  i_ren : full = true -> x_ren c = false }.
+  i_pend : full = true -> forall s, In s (x_pend c) -> h_get s (s_h st) <> Some true }.
 
 Lemma Inv0 : forall full f, Inv full (st0 f) x0.
 Proof.
@@ -86,7 +86,7 @@ Lemma existsb_cons : forall (A : Type) (f : A -> bool) x l, existsb f (x :: l) =
 Proof. reflexivity. Qed.
 
 Ltac xbool :=
-  repeat (rewrite ?existsb_cons; cbn [is_excl is_falloc is_fsync is_xok_fsync];
+  repeat (rewrite ?existsb_cons; cbn [is_excl is_falloc is_fsync];
           rewrite ?N.eqb_refl, ?memb_add_same, ?memb_del_same, ?memb_nil; cbn [andb orb negb]).
 
 Ltac hcase x s :=
@@ -111,7 +111,7 @@ Ltac sd :=
 
 (* the common end of every case: the checker accepts the call, the invariant holds *)
 Ltac accept := eexists; split; [reflexivity|].
-Ltac inv HI := destruct HI as [IM IH IP IR]; constructor; xproj; auto.
+Ltac inv HI := destruct HI as [IM IH IP]; constructor; xproj; auto.
 
 Lemma step_create : forall full seg st c s ev ok st',
   Inv full st c -> xf_create seg st s = (ev, ok, st') ->
@@ -179,39 +179,32 @@ Proof.
   all: injection H as <- <- <-; xsimp; xbool; accept; inv HI.
 Qed.
 
-(* Sync: a failure in the directory part breaks the invariant (the handle is
-   marked `new = 1` although the entry is still pending) *)
+(* Sync: the handle is marked only when the directory fsync succeeded, so a
+   pending entry always meets a handle that still fsyncs the directory *)
 Lemma step_sync : forall full seg st c s ev ok st',
   Inv full st c -> xf_sync st s = (ev, ok, st') ->
-  (exists c', xrun full seg c (ev ++ [XRet (FSync s) ok]) = inl c' /\ Inv full st' c')
-  \/ (full = true /\ dir_failed_call (FSync s, ev, ok) = true).
+  exists c', xrun full seg c (ev ++ [XRet (FSync s) ok]) = inl c' /\ Inv full st' c'.
 Proof.
   intros full seg st c s ev ok st' HI H. unfold xf_sync in H. brk H.
   all: try sd.
   all: injection H as <- <- <-.
   - (* the handle has fsynced the directory before: the entry is not pending *)
-    left. xsimp; xbool.
+    xsimp; xbool.
     assert (Hp : full && memb s (x_pend c) = false).
     { destruct full; [|reflexivity]. cbn [andb]. apply memb_false. intros Hin.
       apply (i_pend _ _ _ HI eq_refl s Hin). exact Heqo. }
     rewrite Hp. accept. inv HI.
-  - (* first Sync of the handle, directory fsynced *)
-    left. xsimp; xbool. rewrite andb_false_r. accept. inv HI.
+  - (* directory fsynced: nothing is pending any more *)
+    xsimp; xbool. rewrite andb_false_r. accept. inv HI.
     all: try (intros Hf x Hx; contradiction).
     all: try (intros x Hx; hcase x s; [|auto]; apply IH; congruence).
-  - (* the directory fsync failed *)
-    destruct full.
-    + right. split; [reflexivity|]. cbn [dir_failed_call]. xbool. reflexivity.
-    + left. xsimp; xbool. accept. inv HI; try (intros; discriminate).
-      all: try (intros x Hx; hcase x s; [|auto]; apply IH; congruence).
+  - (* the directory fsync failed: the handle stays unmarked *)
+    xsimp; xbool. accept. inv HI.
   - (* the directory could not be opened *)
-    destruct full.
-    + right. split; [reflexivity|]. cbn [dir_failed_call]. xbool. reflexivity.
-    + left. xsimp; xbool. accept. inv HI; try (intros; discriminate).
-      all: try (intros x Hx; hcase x s; [|auto]; apply IH; congruence).
+    xsimp; xbool. accept. inv HI.
   - (* the file fsync failed: nothing changed *)
-    left. xsimp; xbool. accept. inv HI.
-  - left. xsimp; xbool. accept. inv HI.
+    xsimp; xbool. accept. inv HI.
+  - xsimp; xbool. accept. inv HI.
 Qed.
 
 Ltac te_cases :=
@@ -221,118 +214,70 @@ Ltac te_cases :=
 
 Lemma step_metainit : forall full seg st c ev ok st',
   Inv full st c -> xf_metainit st = (ev, ok, st') ->
-  (exists c', xrun full seg c (ev ++ [XRet FMetaInit ok]) = inl c' /\ Inv full st' c')
-  \/ (full = true /\ dir_failed_call (FMetaInit, ev, ok) = true).
+  exists c', xrun full seg c (ev ++ [XRet FMetaInit ok]) = inl c' /\ Inv full st' c'.
 Proof.
   intros full seg st c ev ok st' HI H. unfold xf_metainit in H.
   destruct (s_meta st) eqn:Em.
-  - (* wal-meta.db exists: "File exists, just open it" *)
-    left. pose proof (i_meta _ _ _ HI Em) as Hme.
-    assert (Hr : full && x_ren c = false).
-    { destruct full; [|reflexivity]. cbn [andb]. apply (i_ren _ _ _ HI eq_refl). }
-    brk H; injection H as <- <- <-; repeat (progress (xsimp; rewrite ?Hme, ?Hr)); accept; inv HI.
+  - (* wal-meta.db exists: directory fsync, then open *)
+    pose proof (i_meta _ _ _ HI Em) as Hme.
+    destruct (s_mopen st); brk H; try sd; injection H as <- <- <-;
+      repeat (progress (xsimp; rewrite ?Hme, ?andb_false_r)); accept; inv HI;
+      try (intros Hf x Hx; contradiction).
   - destruct (s_mopen st), (s_tmp st); brk H.
     all: try sd.
     all: injection H as <- <- <-.
-    all: try (left; repeat (progress (xsimp; te_cases; rewrite ?andb_false_r)); accept; inv HI;
-              try (intros; discriminate); try (intros Hf x Hx; contradiction); fail).
-    all: destruct full;
-      [right; split; reflexivity
-      |left; repeat (progress (xsimp; te_cases)); accept; inv HI; intros; discriminate].
+    all: repeat (progress (xsimp; te_cases; rewrite ?andb_false_r)); accept; inv HI;
+         try (intros; discriminate); try (intros Hf x Hx; contradiction).
 Qed.
 
 Lemma step_inv : forall full seg st c o ev ok st',
   Inv full st c -> fs_step_f seg st o = (ev, ok, st') ->
-  (exists c', xrun full seg c (ev ++ [XRet o ok]) = inl c' /\ Inv full st' c')
-  \/ (full = true /\ dir_failed_call (o, ev, ok) = true).
+  exists c', xrun full seg c (ev ++ [XRet o ok]) = inl c' /\ Inv full st' c'.
 Proof.
   intros full seg st c o ev ok st' HI H. destruct o as [s|s|s off len|s|s|s| | |k op n]; cbn [fs_step_f] in H.
-  - left. eapply step_create; eauto.
-  - left. eapply step_openw; eauto.
-  - left. eapply step_write; eauto.
+  - eapply step_create; eauto.
+  - eapply step_openw; eauto.
+  - eapply step_write; eauto.
   - eapply step_sync; eauto.
-  - left. eapply step_close; eauto.
-  - left. eapply step_delete; eauto.
+  - eapply step_close; eauto.
+  - eapply step_delete; eauto.
   - eapply step_metainit; eauto.
-  - left. eapply step_metacommit; eauto.
-  - left. injection H as <- <- <-. xsimp. accept. inv HI.
+  - eapply step_metacommit; eauto.
+  - injection H as <- <- <-. xsimp. accept. inv HI.
 Qed.
 
 Lemma run_inv : forall full seg ops st c,
-  Inv full st c ->
-  (exists c', xrun full seg c (xtrace_of (fs_run_from seg st ops)) = inl c')
-  \/ (full = true /\ dir_part_failed (fs_run_from seg st ops) = true).
+  Inv full st c -> exists c', xrun full seg c (xtrace_of (fs_run_from seg st ops)) = inl c'.
 Proof.
   induction ops as [|o ops IHo]; intros st c HI; cbn [fs_run_from].
-  - left. exists c. reflexivity.
+  - exists c. reflexivity.
   - destruct (fs_step_f seg st o) as [[ev ok] st'] eqn:Es.
-    cbn [xtrace_of flat_map xcall_trace dir_part_failed existsb]. fold (xtrace_of (fs_run_from seg st' ops)).
-    fold (dir_part_failed (fs_run_from seg st' ops)).
-    destruct (step_inv full seg st c o ev ok st' HI Es) as [(c1 & Hc1 & HI1)|[Hf Hd]].
-    + rewrite xrun_app, Hc1. destruct (IHo st' c1 HI1) as [Hok|[Hf Hd]]; [left; exact Hok|].
-      right. split; [exact Hf|]. rewrite Hd. apply orb_true_r.
-    + right. split; [exact Hf|]. rewrite Hd. reflexivity.
+    cbn [xtrace_of flat_map xcall_trace]. fold (xtrace_of (fs_run_from seg st' ops)).
+    destruct (step_inv full seg st c o ev ok st' HI Es) as (c1 & Hc1 & HI1).
+    rewrite xrun_app, Hc1. apply IHo. exact HI1.
 Qed.
 
-(* C07_fault_core_ok: for every op sequence (valid or not) and every fault
-   position the model's trace obeys the deletion, creation, file-fsync and
-   meta-completeness clauses: a Delete reports nil only if the name was
-   unlinked and a successful directory fsync followed the unlink, a Create only
-   after a successful O_EXCL open and a successful fallocate(0, 0, size), a
-   Sync only after a successful fsync of the file, a Load only when
-   wal-meta.db got its name by rename of a written, synced and closed tmp file *)
-Theorem fault_core_ok : forall seg ops f, xdiscipline false seg (fs_xtrace seg ops f) = true.
+Lemma fault_ok : forall full seg ops f, xdiscipline full seg (fs_xtrace seg ops f) = true.
 Proof.
-  intros seg ops f. unfold xdiscipline, xdiscipline_res, fs_xtrace, fs_run_f.
-  destruct (run_inv false seg ops (st0 f) x0 (Inv0 false f)) as [(c' & Hc)|[Hf _]]; [|discriminate].
+  intros full seg ops f. unfold xdiscipline, xdiscipline_res, fs_xtrace, fs_run_f.
+  destruct (run_inv full seg ops (st0 f) x0 (Inv0 full f)) as (c' & Hc).
   rewrite (xcheck_xrun _ _ _ _ _ _ Hc). reflexivity.
 Qed.
 
-(* C07_fault_full_ok_or_dir_failed: the directory clauses (Sync nil => the
-   file's directory entry has been followed by a successful directory fsync;
-   Load nil => so has the rename) hold as well on every run in which no Sync /
-   Load failed in its directory part (after its file fsync / rename) *)
-Theorem fault_full_ok_or_dir_failed : forall seg ops f,
-  xdiscipline true seg (fs_xtrace seg ops f) = true \/ dir_part_failed (fs_run_f seg ops f) = true.
-Proof.
-  intros seg ops f. unfold xdiscipline, xdiscipline_res, fs_xtrace, fs_run_f.
-  destruct (run_inv true seg ops (st0 f) x0 (Inv0 true f)) as [(c' & Hc)|[_ Hd]]; [left|right; exact Hd].
-  rewrite (xcheck_xrun _ _ _ _ _ _ Hc). reflexivity.
-Qed.
+(* C07_fault_full_ok: for every op sequence (valid or not) and every fault
+   position the model's trace obeys the whole discipline: a Delete reports nil
+   only if the name was unlinked and a successful directory fsync followed the
+   unlink; a Create only after a successful O_EXCL open and a successful
+   fallocate(0, 0, size); a Sync only after a successful fsync of the file and
+   with a successful directory fsync since the file was created; a Load only
+   when wal-meta.db got its name by rename of a written, synced and closed tmp
+   file and a successful directory fsync followed the rename *)
+Theorem fault_full_ok : forall seg ops f, xdiscipline true seg (fs_xtrace seg ops f) = true.
+Proof. intros. apply fault_ok. Qed.
 
-(* without a fault no call fails in its directory part *)
-Lemma attempt_none : forall c, attempt c None = (false, None).
-Proof. reflexivity. Qed.
-
-Lemma step_nofault : forall seg st o ev ok st',
-  s_flt st = None -> fs_step_f seg st o = (ev, ok, st') ->
-  s_flt st' = None /\ dir_failed_call (o, ev, ok) = false.
-Proof.
-  intros seg st o ev ok st' Hn H.
-  destruct o as [s|s|s off len|s|s|s| | |k op n]; cbn [fs_step_f] in H;
-    unfold xf_create, xf_openw, xf_write, xf_sync, xf_close, xf_delete, xf_metainit, xf_metacommit,
-           xf_syncdir, sys in H;
-    rewrite ?Hn in H; cbn [attempt orb negb] in H; brk H;
-    injection H as <- <- <-; xproj; split; auto; try reflexivity.
-  all: cbn [dir_failed_call negb andb]; try reflexivity.
-  all: destruct (s_mopen st), (s_tmp st); reflexivity.
-Qed.
-
-Lemma run_nofault : forall seg ops st, s_flt st = None -> dir_part_failed (fs_run_from seg st ops) = false.
-Proof.
-  induction ops as [|o ops IHo]; intros st Hn; cbn [fs_run_from]; [reflexivity|].
-  destruct (fs_step_f seg st o) as [[ev ok] st'] eqn:Es.
-  destruct (step_nofault _ _ _ _ _ _ Hn Es) as [Hn' Hd].
-  cbn [dir_part_failed existsb]. rewrite Hd. apply IHo. exact Hn'.
-Qed.
-
-(* C07_fault_free_full_ok: on a healthy system every op sequence, invalid calls
-   included, obeys the full discipline *)
-Theorem fault_free_full_ok : forall seg ops, xdiscipline true seg (fs_xtrace seg ops None) = true.
-Proof.
-  intros seg ops. destruct (fault_full_ok_or_dir_failed seg ops None) as [H|H]; [exact H|].
-  unfold fs_run_f in H. rewrite run_nofault in H by reflexivity. discriminate.
-Qed.
+(* the same without the two directory clauses (what held before b0161d2 / 862e6cb) *)
+Corollary fault_core_ok : forall seg ops f, xdiscipline false seg (fs_xtrace seg ops f) = true.
+Proof. intros. apply fault_ok. Qed.
 
 (* ---- what the clauses of the checker mean on the trace itself ---------------- *)
 Lemma xcheck_inl_xrun : forall full seg t c i c',
@@ -359,7 +304,7 @@ Qed.
 Lemma xok_step_frame : forall c e c1, xok_step c e = inl c1 ->
   x_call c1 = x_call c /\
   ((forall s, e <> OpenExcl (Seg s)) -> (forall s, e <> Unlink (Seg s)) -> e <> FsyncDir ->
-   x_gone c1 = x_gone c /\ x_unl c1 = x_unl c).
+   x_gone c1 = x_gone c /\ x_unl c1 = x_unl c /\ x_pend c1 = x_pend c).
 Proof.
   intros c e c1 H.
   destruct e as [n|n|n|n m o l|n o l|n l|n|n| |n|a b|n|k op m];
@@ -402,7 +347,7 @@ Proof.
   - destruct (xok_step c e) as [c1|v] eqn:E; [|discriminate]. injection H as <-.
     destruct (xok_step_frame _ _ _ E) as [_ Hfr].
     destruct e as [n|n|n|n m o l|n o l|n l|n|n| |n|a b|n|k op m]; try (destruct n as [s'| | |i]).
-    all: try (destruct Hfr as [Hg Hu]; try (intros; discriminate);
+    all: try (destruct Hfr as (Hg & Hu & _); try (intros; discriminate);
               eapply G_other; eauto; xproj; try exact Hg; try exact Hu; intros; discriminate).
     + (* OpenExcl (Seg s') *)
       cbn [xok_step] in E. injection E as <-. intros s Hin. xproj. sets. destruct Hin as [Hin Hne].
@@ -546,36 +491,175 @@ Proof.
   - apply Hc. eapply existsb_In; [apply is_falloc_eq|exact E2].
 Qed.
 
-(* C07_fault_sync_ok_sound: a Sync that reports nil has successfully fsynced the
-   file within the call *)
+(* ---- the directory clauses on the trace itself -------------------------------- *)
+Lemma snoc_split : forall (A : Type) (t : list A) x a y b,
+  t ++ [x] = a ++ y :: b ->
+  (exists b', b = b' ++ [x] /\ t = a ++ y :: b') \/ (a = t /\ y = x /\ b = []).
+Proof.
+  intros A t x a y b H. destruct b as [|z b0] using rev_ind.
+  - right. apply app_inj_tail in H. destruct H as [-> ->]. auto.
+  - left. clear IHb0. replace (a ++ y :: b0 ++ [z]) with ((a ++ y :: b0) ++ [z]) in H
+      by (rewrite <- app_assoc; reflexivity).
+    apply app_inj_tail in H. destruct H as [-> ->]. eauto.
+Qed.
+
+(* every successful creation of [s] in [t] was followed by a successful
+   directory fsync -- or by an unlink / a later creation of the same name, in
+   which case the later creation is the one that counts (the last creation has
+   no later one: it is followed by a directory fsync or the file is gone) *)
+Definition entry_dir_synced (s : N) (t : list xevent) : Prop :=
+  forall a b, t = a ++ XOk (OpenExcl (Seg s)) :: b ->
+  In (XOk FsyncDir) b \/ In (XOk (Unlink (Seg s))) b \/ In (XOk (OpenExcl (Seg s))) b.
+
+Definition P (t : list xevent) (c : xst) : Prop :=
+  forall s, ~ In s (x_pend c) -> entry_dir_synced s t.
+
+Lemma entry_ext : forall s t x, entry_dir_synced s t -> x <> XOk (OpenExcl (Seg s)) -> entry_dir_synced s (t ++ [x]).
+Proof.
+  intros s t x H Hx a b Hs. destruct (snoc_split _ _ _ _ _ _ Hs) as [(b' & -> & Ht)|(_ & Hy & _)]; [|congruence].
+  destruct (H a b' Ht) as [Hi|[Hi|Hi]]; [left|right; left|right; right]; apply in_or_app; left; exact Hi.
+Qed.
+
+Lemma P_step : forall full seg t c x c', P t c -> xstep full seg c x = inl c' -> P (t ++ [x]) c'.
+Proof.
+  intros full seg t c x c' HP H. destruct x as [e|e|d|o ok]; cbn [xstep] in H.
+  - destruct (xok_step c e) as [c1|v] eqn:E; [|discriminate]. injection H as <-.
+    destruct (xok_step_frame _ _ _ E) as [_ Hfr].
+    destruct e as [n|n|n|n m o l|n o l|n l|n|n| |n|a b|n|k op m]; try (destruct n as [s'| | |i]).
+    all: try (destruct Hfr as (_ & _ & Hp); try (intros; discriminate);
+              intros s Hs; xproj; rewrite Hp in Hs; apply entry_ext; [apply HP; exact Hs|discriminate]).
+    + (* OpenExcl (Seg s') *)
+      cbn [xok_step] in E. injection E as <-. intros s Hs. xproj.
+      assert (Hne : s <> s') by (intros ->; apply Hs; sets; auto).
+      apply entry_ext; [apply HP; intros Hi; apply Hs; sets; auto|congruence].
+    + (* FsyncDir *)
+      cbn [xok_step] in E. injection E as <-. intros s _ a b Hs.
+      destruct (snoc_split _ _ _ _ _ _ Hs) as [(b' & -> & Ht)|(_ & Hy & _)]; [|discriminate].
+      left. apply in_or_app. right. left. reflexivity.
+    + (* Unlink (Seg s') *)
+      cbn [xok_step] in E. injection E as <-. intros s Hs. xproj.
+      destruct (N.eq_dec s s') as [->|Hne].
+      * intros a b Hsp. destruct (snoc_split _ _ _ _ _ _ Hsp) as [(b' & -> & Ht)|(_ & Hy & _)]; [|discriminate].
+        right. left. apply in_or_app. right. left. reflexivity.
+      * apply entry_ext; [apply HP; intros Hi; apply Hs; sets; auto|discriminate].
+  - injection H as <-. intros s Hs. apply entry_ext; [apply HP; exact Hs|discriminate].
+  - injection H as <-. intros s Hs. apply entry_ext; [apply HP; exact Hs|discriminate].
+  - assert (Hc : c' = xs_call c []).
+    { destruct ok; [destruct (xret_check full seg c o); [discriminate|]|]; injection H as <-; reflexivity. }
+    subst c'. intros s Hs. apply entry_ext; [apply HP; exact Hs|discriminate].
+Qed.
+
+Lemma P_run : forall full seg t2 t1 c c', P t1 c -> xrun full seg c t2 = inl c' -> P (t1 ++ t2) c'.
+Proof.
+  induction t2 as [|x t2 IH]; intros t1 c c' HP H; cbn [xrun] in H.
+  - injection H as <-. rewrite app_nil_r. exact HP.
+  - destruct (xstep full seg c x) as [c1|v] eqn:E; [|discriminate].
+    replace (t1 ++ x :: t2) with ((t1 ++ [x]) ++ t2) by (rewrite <- app_assoc; reflexivity).
+    eapply IH; [|exact H]. eapply P_step; eauto.
+Qed.
+
+Lemma P0 : P [] x0.
+Proof. intros s _ a b H. destruct a; discriminate. Qed.
+
+(* C07_fault_sync_ok_sound: in any accepted trace a Sync that reports nil has
+   successfully fsynced the file within the call, and (full discipline) every
+   successful creation of that name was followed by a successful directory
+   fsync (or the file was unlinked / the name created again later) *)
 Theorem sync_ok_sound : forall full seg t1 s t2,
   xdiscipline full seg (t1 ++ XRet (FSync s) true :: t2) = true ->
-  exists a b, t1 = a ++ b /\ no_ret b /\ In (XOk (Fsync (Seg s))) b.
+  (exists a b, t1 = a ++ b /\ no_ret b /\ In (XOk (Fsync (Seg s))) b) /\
+  (full = true -> entry_dir_synced s t1).
 Proof.
   intros full seg t1 s t2 H. destruct (xdiscipline_split _ _ _ _ _ H) as (c1 & c2 & Hr & Hs).
   assert (HC : C t1 c1) by (change t1 with ([] ++ t1); eapply C_run; [exact C0|exact Hr]).
+  assert (HP : P t1 c1) by (change t1 with ([] ++ t1); eapply P_run; [exact P0|exact Hr]).
   cbn [xstep xret_check] in Hs.
   destruct (existsb (is_fsync s) (x_call c1)) eqn:E1; cbn [negb] in Hs; [|discriminate].
-  destruct HC as (a & b & Ht & Hn & Hc). exists a, b. split; [exact Ht|]. split; [exact Hn|].
-  apply Hc. eapply existsb_In; [apply is_fsync_eq|exact E1].
+  split.
+  - destruct HC as (a & b & Ht & Hn & Hc). exists a, b. split; [exact Ht|]. split; [exact Hn|].
+    apply Hc. eapply existsb_In; [apply is_fsync_eq|exact E1].
+  - intros ->. cbn [andb] in Hs. destruct (memb s (x_pend c1)) eqn:Ep; [discriminate|].
+    apply HP. apply memb_false. exact Ep.
 Qed.
 
-(* ---- what the real code does on the directory fault paths: refutations ------- *)
-(* fs/file.go: `new` is set before syncDir has succeeded.  Create, write, a Sync
-   whose directory fsync fails (EIO) -- correctly reported -- and the retried
-   Sync reports nil although the file's directory entry was never followed by
-   a successful directory fsync. *)
-Definition ex_sync_ops : list fsop := [FCreate 0; FWrite 0 0 16; FSync 0; FSync 0].
-Definition ex_sync_fault : fault := Some (SFsync, 1%nat).
+Lemma event_is_dir_or_rename : forall e,
+  {e = FsyncDir} + {e = Rename MetaTmp Meta} + {e <> FsyncDir /\ e <> Rename MetaTmp Meta}.
+Proof.
+  intros e. destruct e as [n|n|n|n m o l|n o l|n l|n|n| |n|a b|n|k op m];
+    try (right; split; discriminate).
+  - left. left. reflexivity.
+  - destruct a as [sa| | |ia]; try (right; split; discriminate).
+    destruct b as [sb| | |ib]; try (right; split; discriminate).
+    left. right. reflexivity.
+Qed.
 
-Theorem sync_entry_refuted :
-  exists seg ops f, xdiscipline_res true seg (fs_xtrace seg ops f) = Some (10%nat, XVSyncEntryPending).
-Proof. exists 1024, ex_sync_ops, ex_sync_fault. vm_compute. reflexivity. Qed.
+(* wal-meta.db: it exists only by the rename, and a clear [x_ren] means a
+   successful directory fsync followed the (last) rename *)
+Definition M (t : list xevent) (c : xst) : Prop :=
+  x_me c = true ->
+  exists a b, t = a ++ XOk (Rename MetaTmp Meta) :: b /\ (x_ren c = false -> In (XOk FsyncDir) b).
 
-(* metadb.go: a Load that fails after the rename (here: the directory cannot be
-   opened, EMFILE) leaves wal-meta.db under its final name; the retried Load
-   takes the "file exists, just open it" branch and reports nil although no
-   directory fsync ever followed the rename. *)
-Theorem meta_dir_refuted :
-  exists seg ops f, xdiscipline_res true seg (fs_xtrace seg ops f) = Some (8%nat, XVMetaDirNotSynced).
-Proof. exists 1024, [FMetaInit; FMetaInit], (Some (SOpenat, 1%nat)). vm_compute. reflexivity. Qed.
+Lemma xok_step_meta_frame : forall c e c1, xok_step c e = inl c1 ->
+  e <> FsyncDir -> e <> Rename MetaTmp Meta -> x_me c1 = x_me c /\ x_ren c1 = x_ren c.
+Proof.
+  intros c e c1 H H1 H2.
+  destruct e as [n|n|n|n m o l|n o l|n l|n|n| |n|a b|n|k op m];
+    try (destruct n as [s| | |i]); try (destruct a as [sa| | |ia]; destruct b as [sb| | |ib]);
+    cbn [xok_step] in H; brk H; try discriminate; try congruence; injection H as <-; xproj; auto.
+Qed.
+
+Lemma M_other : forall t c c' x, M t c -> x_me c' = x_me c -> x_ren c' = x_ren c -> M (t ++ [x]) c'.
+Proof.
+  intros t c c' x HM Hm Hr Hme. rewrite Hm in Hme. destruct (HM Hme) as (a & b & -> & Hb).
+  exists a, (b ++ [x]). split; [rewrite <- app_assoc; reflexivity|].
+  intros Hf. rewrite Hr in Hf. apply in_or_app. left. auto.
+Qed.
+
+Lemma M_step : forall full seg t c x c', M t c -> xstep full seg c x = inl c' -> M (t ++ [x]) c'.
+Proof.
+  intros full seg t c x c' HM H. destruct x as [e|e|d|o ok]; cbn [xstep] in H.
+  - destruct (xok_step c e) as [c1|v] eqn:E; [|discriminate]. injection H as <-.
+    destruct (event_is_dir_or_rename e) as [[->| ->]|[Hd Hrn]].
+    + (* FsyncDir *)
+      cbn [xok_step] in E. injection E as <-. xproj. intros Hme. xproj.
+      destruct (HM Hme) as (a & b & -> & Hb).
+      exists a, (b ++ [XOk FsyncDir]). split; [rewrite <- app_assoc; reflexivity|].
+      intros _. apply in_or_app. right. left. reflexivity.
+    + (* the rename *)
+      cbn [xok_step] in E. brk E; [|discriminate]. injection E as <-. intros _.
+      exists t, []. split; [reflexivity|]. xproj. intros; discriminate.
+    + destruct (xok_step_meta_frame _ _ _ E Hd Hrn) as [Hm Hr].
+      eapply M_other; eauto.
+  - injection H as <-. eapply M_other; eauto.
+  - injection H as <-. eapply M_other; eauto.
+  - assert (Hc : c' = xs_call c []).
+    { destruct ok; [destruct (xret_check full seg c o); [discriminate|]|]; injection H as <-; reflexivity. }
+    subst c'. eapply M_other; eauto.
+Qed.
+
+Lemma M_run : forall full seg t2 t1 c c', M t1 c -> xrun full seg c t2 = inl c' -> M (t1 ++ t2) c'.
+Proof.
+  induction t2 as [|x t2 IH]; intros t1 c c' HM H; cbn [xrun] in H.
+  - injection H as <-. rewrite app_nil_r. exact HM.
+  - destruct (xstep full seg c x) as [c1|v] eqn:E; [|discriminate].
+    replace (t1 ++ x :: t2) with ((t1 ++ [x]) ++ t2) by (rewrite <- app_assoc; reflexivity).
+    eapply IH; [|exact H]. eapply M_step; eauto.
+Qed.
+
+(* C07_fault_meta_ok_sound: in any accepted trace a Load that reports nil comes
+   after a successful rename of the tmp db onto wal-meta.db (the checker lets
+   the name appear in no other way, and only for a written, synced and closed
+   tmp file) and, under the full discipline, a successful directory fsync
+   followed that rename *)
+Theorem meta_ok_sound : forall full seg t1 t2,
+  xdiscipline full seg (t1 ++ XRet FMetaInit true :: t2) = true ->
+  exists a b, t1 = a ++ XOk (Rename MetaTmp Meta) :: b /\ (full = true -> In (XOk FsyncDir) b).
+Proof.
+  intros full seg t1 t2 H. destruct (xdiscipline_split _ _ _ _ _ H) as (c1 & c2 & Hr & Hs).
+  assert (HM : M t1 c1).
+  { change t1 with ([] ++ t1). eapply M_run; [|exact Hr]. intros Hme. discriminate. }
+  cbn [xstep xret_check] in Hs.
+  destruct (x_me c1) eqn:Eme; cbn [negb] in Hs; [|discriminate].
+  destruct (HM Eme) as (a & b & Ht & Hb). exists a, b. split; [exact Ht|].
+  intros ->. cbn [andb] in Hs. destruct (x_ren c1) eqn:Er; [discriminate|]. auto.
+Qed.
